@@ -33,6 +33,60 @@ def m_elapsed(it, a, ty, callee):
     return it.binop('Sub', now, t) if it.branch(it.binop('Le', t, now)) else dur(0)
 
 
+# ---- litep2p's verif_clock (feature `verif`): a harness-driven millisecond clock. The module is environment code like
+# `Nondet`: natively its real body runs (a static atomic), here it is a per-path counter.
+class VSleep(Model):
+    __slots__ = ('deadline',)
+    fields = ()
+
+    def __init__(self, deadline):
+        self.deadline = deadline
+
+
+def _vnow(it):
+    return it.path_state.get('vclock_ms', 0)
+
+
+def m_vclock_now_ms(it, a, ty, callee):
+    return Int(_vnow(it), 64, False)
+
+
+def m_vclock_advance(it, a, ty, callee):
+    if not a[0].conc:
+        raise Inconclusive('verif_clock::advance with a symbolic amount')
+    it.path_state['vclock_ms'] = _vnow(it) + a[0].v
+    return UNIT
+
+
+def m_vinstant_now(it, a, ty, callee):
+    return Adt('verif_clock::Instant', 0, [Int(_vnow(it), 64, False)])
+
+
+def m_vinstant_elapsed(it, a, ty, callee):
+    t = deref(it, a[0]).fields[0]
+    return dur(max(0, _vnow(it) - t.v) * 10 ** 6)
+
+
+def m_vsleep(it, a, ty, callee):
+    d = a[0]
+    if not d.conc:
+        raise Inconclusive('verif_clock::sleep with a symbolic duration')
+    return VSleep(_vnow(it) + d.v // 10 ** 6)
+
+
+def m_vsleep_poll(it, a, ty, callee):
+    p = a[0].fields[0] if isinstance(a[0], Adt) and a[0].ty == 'std::pin::Pin' else a[0]
+    s = it.load(p)
+    return Adt('std::task::Poll', 0, [UNIT]) if _vnow(it) >= s.deadline else Adt('std::task::Poll', 1, ())
+
+
+def m_dur_saturating_sub(it, a, ty, callee):
+    x, y = a
+    if x.conc and y.conc:
+        return dur(max(0, x.v - y.v))
+    return it.binop('Sub', x, y) if it.branch(it.binop('Ge', x, y)) else dur(0)
+
+
 def m_sub(it, a, ty, callee):
     return it.binop('Sub', a[0], a[1])
 
@@ -119,6 +173,13 @@ def install(it):
     from .core import m_eq, m_ne
     A(r'<sha2::digest::hybrid_array::Array<u8, .*> as std::cmp::PartialEq>::eq', m_eq)
     A(r'<sha2::digest::hybrid_array::Array<u8, .*> as std::cmp::PartialEq>::ne', m_ne)
+    A(r'verif_clock::now_ms', m_vclock_now_ms)
+    A(r'verif_clock::advance', m_vclock_advance)
+    A(r'verif_clock::Instant::now', m_vinstant_now)
+    A(r'verif_clock::Instant::elapsed', m_vinstant_elapsed)
+    A(r'verif_clock::sleep', m_vsleep)
+    A(r'<verif_clock::Sleep as (?:std::future|futures)::Future>::poll', m_vsleep_poll)
+    A(r'std::time::Duration::saturating_sub', m_dur_saturating_sub)
     A(r'std::time::Duration::from_secs', m_dur_from(10 ** 9))
     A(r'std::time::Duration::from_millis', m_dur_from(10 ** 6))
     A(r'std::time::Duration::from_nanos', m_dur_from(1))
